@@ -98,7 +98,8 @@ int main(int argc, char **argv) {
       arm_case_timer(true);
       bool held = prop_run(t, *rp);
       arm_case_timer(false);
-      if (held && case_leaked()) { g_leak_fail = true; held = rp->fail("the case leaked heap memory (LeakSanitizer report in the worker log): a clear function did not release everything"); }
+      // only the first failure can be attributed: a failing case may return early without freeing, and LeakSanitizer keeps reporting old leaks
+      if (held && !g_failed_once && case_leaked()) { g_leak_fail = true; held = rp->fail("the case leaked heap memory (LeakSanitizer report in the worker log): a clear function did not release everything"); }
       if (!held) {
         bool first = !g_failed_once;
         g_lastfail = w; g_lastmsg = rp->fail_msg; g_lastkind = rp->fail_kind; g_failed_once = true;
